@@ -67,6 +67,8 @@ type coreSim struct {
 	trace     []string          // offset-normalised observable trace (C12), when traceOn
 	traceOn   bool
 	tw        [2]timeoutWatch
+	modeSwitched  [2]bool   // a no-delay MODE switch happened and rx_rto has not been recomputed since
+	modeSwitchRto [2]uint32 // rx_rto at that moment
 	adv       [2]uint32 // the peer's window as last advertised in a REGULAR datagram (tracked here, not read from the core)
 	advSet    [2]bool
 }
@@ -358,7 +360,15 @@ func (s *coreSim) SetMtu(e int, m int) int {
 
 func (s *coreSim) NoDelay(e int, nd, iv, rs, nc int) {
 	s.ops = append(s.ops, fmt.Sprintf("nodelay %d %d %d %d %d %d", e, s.now, nd, iv, rs, nc))
+	was := s.k[e].nodelay
 	s.k[e].NoDelay(nd, iv, rs, nc)
+	if nd >= 0 && (was != 0) != (nd != 0) {
+		// boundary B4: a MODE switch leaves rx_rto where it is until the next RTT sample
+		s.modeSwitchRto[e], s.modeSwitched[e] = s.k[e].rx_rto, true
+	}
+	if curMon.rto {
+		s.monRto(e)
+	}
 	s.logf("nodelay %d %d %d %d %d %d\n", e, s.now, nd, iv, rs, nc)
 	s.state(e)
 }
